@@ -40,7 +40,7 @@ ORDER = {      # the checks that look at each file, most likely first (a survivo
     'model.py': ['C11', 'C06', 'C01', 'C10', 'C03', 'C14', 'C18'],
     'fileIO.py': ['C10', 'C13', 'C01', 'C09'],
     'options_parser.py': ['C16', 'C02', 'C03'],
-    'solver.py': ['C18', 'C14', 'C02', 'C07'],
+    'solver.py': ['C18', 'C14', 'C02', 'C07', 'C06', 'C11'],
     'brute_force_solver.py': ['C07', 'C18'],
     'instance_options_parser.py': ['C15', 'C08'],
     'generator_shared.py': ['C13', 'C17', 'C08', 'C12'],
